@@ -209,6 +209,7 @@ type LState struct {
 	alloc        *allocator
 	currentFrame *callFrame
 	wrapped      bool
+	resumed      bool // LState.Resume has run this thread at least once
 	uvcache      *Upvalue
 	hasErrorFunc bool
 	mainLoop     func(*LState, *callFrame)
